@@ -1,5 +1,6 @@
 """C03 — Dataset containers stay coherent under any history of operations.
-Theorems: coq/props/C03_Properties.v (over coq/model/C03_Model.v).  Audit: harness/props/C03.audit.md.
+Theorems: coq/props/C03_Properties.v (over coq/model/C03_Model.v) and the translator tie
+coq/gen_proofs/C03_GenProperties.v (harness/translate_C03.py, harness/c03_tie.py).  Audit: harness/props/C03.audit.md.
 Tie: operation sequences (corpus, bounded-exhaustive over an instantiated alphabet, seeded random
 to depth 12) are executed on real quantem Dataset objects and on the model; after every step
 the error class, class/shape/data/origin/sampling/units of the touched datasets and the aliasing
@@ -13,6 +14,7 @@ from fractions import Fraction
 
 import numpy as np
 
+from .. import c03_tie
 from .. import impl_C03 as M
 from ..common import VERIF, Ctx
 
@@ -842,8 +844,9 @@ def run(ctx: Ctx):
         "a case is a sequence of Dataset operations (construction incl. from_shape, copy, setters with well- and "
         "malformed arguments of every Python value kind, pad/crop/bin/fourier_resample in place or copying, "
         "indexing, Dataset3d.to_dataset2d, Dataset4dstem.get_dp_mean/max/median and get_virtual_image) executed on "
-        "real objects and on the model: corpus sequences, all sequences of length 2 (quick) / 3 (thorough: 30 "
-        "operations on the 3-D seed = 27 000) over an instantiated alphabet, every alphabet operation on seven "
+        "real objects and on the model: corpus sequences, sequences of length 2 (quick: every 4th / 7th pair on "
+        "the 3-D / 4-D seed while the anchored source equals the recorded baseline, all 900 / every 5th once the "
+        "drift guard fires) / 3 (thorough: 30 operations on the 3-D seed = 27 000) over an instantiated alphabet, every alphabet operation on seven "
         "1-5-D seeds of every class (one with integer-typed calibration), an index sweep (all tuples of <= 3 "
         "items from 9, with an Ellipsis in every position, on 1-5-D datasets with length-1 axes; quick: a "
         "seeded sample), and seeded random sequences of length <= 12 generated against the live state (about "
@@ -864,11 +867,17 @@ def run(ctx: Ctx):
     ]
     ctx.cov["trusted_base"] += [
         "Coq 8.16.1 kernel incl. vm_compute (used to run the model); no native_compute",
-        "hand-written model coq/model/C03_Model.v + coq/lib/C03_Slice.v tied to /repo by this correspondence run",
+        "hand-written model coq/model/C03_Model.v + coq/lib/C03_Slice.v tied to /repo by this correspondence run and, for "
+        "the bookkeeping of __getitem__ / _normalize_axes / the validators / the setters / the in-place and copying "
+        "assignments of pad, crop, bin, fourier_resample, by the translator tie (coq/gen_proofs/C03_GenProperties.v)",
         "harness/props/C03.py, harness/impl_C03.py (generators, oracle, canonicalisation, Python->Coq printers), "
         "harness/common.py",
     ]
     ctx.proofs_or_violation()
+    # translator tie: the bookkeeping the model transcribes by hand, re-translated from the current source and
+    # proved equal to the model (harness/translate_C03.py, coq/gen_proofs/C03_GenProofs.v)
+    c03_tie.run_tie(ctx, {"index": gen_index, "axes": gen_axes, "num": gen_num, "units": gen_units,
+                          "ORIG": ORIG, "SAMP": SAMP})
     r = ctx.rng
 
     # 1. corpus (always first)
@@ -883,14 +892,20 @@ def run(ctx: Ctx):
         ctx.log("corpus: %d sequences, %d disagreements" % (len(recs), nd))
 
     # 2. bounded-exhaustive: every sequence of `depth` alphabet operations after a seed
-    #    quick:    depth 2 over the 30-operation alphabet on the 3-D seed, every 5th one on the 4-D seed
+    #    quick:    depth 2 over the 30-operation alphabet: every 4th pair on the 3-D seed, every 7th on the 4-D
+    #              seed; when the drift guard fires: all 900 on the 3-D seed, every 5th one on the 4-D seed
     #    thorough: depth 3 over the 30-operation alphabet on the 3-D seed (27 000 sequences) and
     #              depth 2 over the full 61-operation alphabet on the 3-D and the 4dstem seed (every third
     #              one on the 5-D seed)
     if __import__("os").environ.get("C03_DEV_FAST"):
         plans = [(2, alphabet(False), SEEDS[0], 23)]
-    elif ctx.quick:
+    elif ctx.quick and ctx.escalated:
+        # the anchored source differs from the recorded baseline: the full depth-2 budget
         plans = [(2, alphabet(False), SEEDS[0], 1), (2, alphabet(False), SEEDS[1], 5)]
+    elif ctx.quick:
+        # unchanged source (drift guard silent, translator tie re-proved above): every 4th / 7th pair
+        # (strides chosen so that every operation still occurs in both positions)
+        plans = [(2, alphabet(False), SEEDS[0], 4), (2, alphabet(False), SEEDS[1], 7)]
     else:
         plans = [(3, alphabet(False), SEEDS[0], 1)] + [(2, alphabet(True), sd, 1) for sd in SEEDS[:2]] + [
             (2, alphabet(True), SEEDS[2], 3)]
@@ -961,7 +976,7 @@ def run(ctx: Ctx):
     ctx.log("4dstem attached-state oracle: %d cases" % n_att)
 
     # 3. random histories
-    nseq = ctx.budget(120, 5000)
+    nseq = ctx.budget(60, 5000)
     recs = []
     for i in range(nseq):
         depth_r = r.choice([12, 12, 12, 8, 5])
